@@ -397,6 +397,61 @@ def case_aead_decrypt(m, layout, alg, fam, adlen, mlen):
     return None
 
 
+def case_aead_inplace(m, layout, alg, adlen, mlen):
+    """incremental encrypt / decrypt with identical input and output buffers,
+    split into chunks, equals the one-shot specification result"""
+    prefix, klen = {"128": ("ascon128", 16), "128a": ("ascon128a", 16), "80pq": ("ascon80pq", 20)}[alg]
+    for chunks in split(mlen, 4):
+        R = modes.Run(m, layout)
+        K, N, A, M = R.buf("K", klen), R.buf("N", 16), R.buf("A", adlen), R.buf("M", mlen)
+        st = R.obj(R.struct_size(prefix + "_state_t"))
+        tag = R.out(16)
+        R.call(prefix + "_aead_init", st, N, K)
+        R.call(prefix + "_aead_start", st, A, adlen)
+        pos = 0
+        for c in chunks:
+            R.call(prefix + "_aead_encrypt_block", st, Ptr(M.obj, pos), Ptr(M.obj, pos), c)     # in place
+            pos += c
+        R.call(prefix + "_aead_encrypt_finalize", st, tag)
+        wc, wt = R.spec.aead_encrypt(alg, SB("K", klen), SB("N", 16), SB("A", adlen), SB("M", mlen))
+        d = modes.first_diff(R.read(M, mlen) + R.read(tag, 16), tuple(wc) + tuple(wt))
+        if d:
+            return ("encrypt-in-place", "in-place encryption split as %s: ciphertext||tag differs at %s" % (chunks, d))
+        # in-place decryption of the genuine ciphertext
+        R = modes.Run(m, layout)
+        K, N, A = R.buf("K", klen), R.buf("N", 16), R.buf("A", adlen)
+        wc, wt = R.spec.aead_encrypt(alg, SB("K", klen), SB("N", 16), SB("A", adlen), SB("M", mlen))
+        buf = R.out(mlen + 16)
+        R.mc.store(buf, tuple(wc) + tuple(wt))
+        st = R.obj(R.struct_size(prefix + "_state_t"))
+        R.call(prefix + "_aead_init", st, N, K)
+        R.call(prefix + "_aead_start", st, A, adlen)
+        pos = 0
+        for c in chunks:
+            R.call(prefix + "_aead_decrypt_block", st, Ptr(buf.obj, pos), Ptr(buf.obj, pos), c)
+            pos += c
+        r = to_int(R.call(prefix + "_aead_decrypt_finalize", st, Ptr(buf.obj, mlen)))
+        if r != 0:
+            return ("decrypt-in-place", "in-place decryption split as %s rejects a genuine ciphertext" % (chunks,))
+        d = modes.first_diff(R.read(buf, mlen), SB("M", mlen))
+        if d:
+            return ("decrypt-in-place", "in-place decryption split as %s: plaintext differs at %s" % (chunks, d))
+    # one-shot decryption in place
+    R = modes.Run(m, layout)
+    K, N, A = R.buf("K", klen), R.buf("N", 16), R.buf("A", adlen)
+    wc, wt = R.spec.aead_encrypt(alg, SB("K", klen), SB("N", 16), SB("A", adlen), SB("M", mlen))
+    buf = R.out(mlen + 16)
+    R.mc.store(buf, tuple(wc) + tuple(wt))
+    ml = R.out(8)
+    r = to_int(R.call(prefix + "_aead_decrypt", buf, ml, buf, mlen + 16, A, adlen, N, K))
+    if r != 0:
+        return ("oneshot-in-place", "one-shot in-place decryption rejects a genuine ciphertext")
+    d = modes.first_diff(R.read(buf, mlen), SB("M", mlen))
+    if d:
+        return ("oneshot-in-place", "one-shot in-place decryption: plaintext differs at %s" % d)
+    return None
+
+
 # ---------------------------------------------------------------------------
 def run_cases(prop, rid, tier, cases, worker):
     """cases: list of picklable tuples starting with (json, cname, layout, ...)"""
